@@ -4,6 +4,7 @@
 package c01
 
 import (
+	"strings"
 	"encoding/json"
 	"fmt"
 
@@ -107,7 +108,21 @@ func run(c *vf.Ctx) {
 }
 
 func replay(c *vf.Ctx, raw json.RawMessage) {
-	chain.ReplayTrace(c, raw, func(name string) func(w *chain.World) []chain.Action {
+	var pf struct {
+		Fn string `json:"policy_function"`
+	}
+	if json.Unmarshal(raw, &pf) == nil && pf.Fn != "" {
+		pureSweep(c, chain.NewKeys(c.Seed))
+		return
+	}
+	var tc chain.TraceCase
+	json.Unmarshal(raw, &tc)
+	attack := false
+	for len(tc.Trace) > 0 && strings.HasPrefix(tc.Trace[len(tc.Trace)-1], "attack:") {
+		tc.Trace, attack = tc.Trace[:len(tc.Trace)-1], true
+	}
+	raw, _ = json.Marshal(tc)
+	w := chain.ReplayTraceWorld(c, raw, func(name string) func(w *chain.World) []chain.Action {
 		switch name {
 		case "payments":
 			return chain.AlphaPayments
@@ -117,7 +132,13 @@ func replay(c *vf.Ctx, raw json.RawMessage) {
 			return chain.AlphaV1Contracts
 		case "v2contracts":
 			return chain.AlphaV2Contracts
+		case "combo":
+			return chain.ComboMenu
 		}
 		return nil
 	}, "C01", chain.Options{CheckForest: true, CheckLedger: true, CheckSupply: true, CheckProofs: true})
+	if w != nil && attack {
+		x := chain.NewExplorer(c, &chain.Model{Name: tc.Model, Spec: chain.Spec(tc.Network), Menu: chain.AlphaPayments}, "C01")
+		wrapAttacks(c, x, w, tc.Trace)
+	}
 }
